@@ -4,6 +4,18 @@ use crate::common::*;
 use serde_json::json;
 use std::io::Write;
 
+/// a constant of field type must be stored in CANONICAL internal form: it compares equal (limb for limb) to the same
+/// value parsed from its bytes, and behaves as that value under operations that do not renormalise (x - c + c, -(-c))
+macro_rules! canon {
+    ($F:ty, $name:expr, $c:expr) => {{
+        let c: $F = $c;
+        let re = <$F>::from_le_bytes_mod_order(&c.to_bytes_le());
+        let x = <$F>::from(0x1234_5678_9abc_def1u64);
+        let v: Vec<u8> = vec![(c == re) as u8, (re == c) as u8, (-(-c) == re) as u8, ((x - c) + re == x) as u8, (-c == -re) as u8];
+        json!({"k":"konst","scope":"canon","name":$name,"val":v,"build":BUILD})
+    }};
+}
+
 fn u(v: u32) -> Vec<u8> {
     vec![(v & 0xff) as u8, (v >> 8) as u8]
 }
@@ -12,6 +24,7 @@ macro_rules! field_consts {
     ($fname:ident, $F:ty, $name:expr, $has_qnrt:expr) => {
         fn $fname(out: &mut dyn Write) {
             type F = $F;
+            let mut canon_events: Vec<serde_json::Value> = Vec::new();
             let mut k = |name: &str, src: &str, val: Vec<u8>| {
                 emit(out, json!({"k":"konst","scope":"field","field":$name,"name":name,"form":src,"val":val,"build":BUILD}));
             };
@@ -27,6 +40,11 @@ macro_rules! field_consts {
             k("ZERO", "ZERO", F::ZERO.to_bytes_le().to_vec());
             k("ONE", "ONE", F::ONE.to_bytes_le().to_vec());
             k("ZERO", "default()", F::default().to_bytes_le().to_vec());
+            canon_events.push(canon!(F, concat!($name, "::MULTIPLICATIVE_GENERATOR"), F::MULTIPLICATIVE_GENERATOR));
+            canon_events.push(canon!(F, concat!($name, "::TWO_ADIC_ROOT_OF_UNITY"), F::TWO_ADIC_ROOT_OF_UNITY));
+            canon_events.push(canon!(F, concat!($name, "::FIELD_SIZE_POWER_OF_TWO"), F::FIELD_SIZE_POWER_OF_TWO));
+            canon_events.push(canon!(F, concat!($name, "::ONE"), F::ONE));
+            canon_events.push(canon!(F, concat!($name, "::ZERO"), F::ZERO));
             #[cfg(feature = "ark")]
             {
                 use ark_ff::{BigInteger, FftField, Field, PrimeField, SqrtPrecomputation};
@@ -58,6 +76,9 @@ macro_rules! field_consts {
                     None => k("SQRT_PRECOMP_KIND", "SQRT_PRECOMP", vec![0]),
                 }
             }
+            for e in canon_events {
+                emit(out, e);
+            }
         }
     };
 }
@@ -84,13 +105,21 @@ pub fn record(suite: &str, _n: usize, _seed: u64, _arg: &str, out: &mut dyn Writ
         k("Fp", "QUADRATIC_NON_RESIDUE", "QUADRATIC_NON_RESIDUE", Fp::QUADRATIC_NON_RESIDUE.to_bytes_le().to_vec());
     }
     // curve constants
+    let mut canon_events: Vec<serde_json::Value> = Vec::new();
     {
         use decaf377::Element;
         let mut k = |name: &str, src: &str, val: Vec<u8>| {
             emit(out, json!({"k":"konst","scope":"curve","name":name,"form":src,"val":val,"build":BUILD}));
         };
         k("ZETA", "ZETA", decaf377::ZETA.to_bytes_le().to_vec());
+        canon_events.push(canon!(decaf377::Fq, "ZETA", decaf377::ZETA));
         let g = Element::GENERATOR.verif_raw();
+        for (i, c) in g.iter().enumerate() {
+            canon_events.push(canon!(decaf377::Fq, format!("Element::GENERATOR coordinate {}", i), *c));
+        }
+        for (i, c) in Element::IDENTITY.verif_raw().iter().enumerate() {
+            canon_events.push(canon!(decaf377::Fq, format!("Element::IDENTITY coordinate {}", i), *c));
+        }
         let gen = |out: &mut dyn Write, src: &str, c: [decaf377::Fq; 4]| {
             // affine coordinates as the crate would compute them: X/Z, Y/Z
             let zi = c[2].inverse().unwrap();
@@ -113,6 +142,13 @@ pub fn record(suite: &str, _n: usize, _seed: u64, _arg: &str, out: &mut dyn Writ
             k("COFACTOR", "CurveConfig::COFACTOR", limbs_to_bytes(<Cfg as CurveConfig>::COFACTOR));
             k("COFACTOR_INV", "CurveConfig::COFACTOR_INV", <Cfg as CurveConfig>::COFACTOR_INV.to_bytes_le().to_vec());
             k("COEFF_A", "mul_by_a(1)", <Cfg as TECurveConfig>::mul_by_a(decaf377::Fq::ONE).to_bytes_le().to_vec());
+            canon_events.push(canon!(decaf377::Fq, "TECurveConfig::COEFF_A", <Cfg as TECurveConfig>::COEFF_A));
+            canon_events.push(canon!(decaf377::Fq, "TECurveConfig::COEFF_D", <Cfg as TECurveConfig>::COEFF_D));
+            canon_events.push(canon!(decaf377::Fq, "MontCurveConfig::COEFF_A", <Cfg as MontCurveConfig>::COEFF_A));
+            canon_events.push(canon!(decaf377::Fq, "MontCurveConfig::COEFF_B", <Cfg as MontCurveConfig>::COEFF_B));
+            canon_events.push(canon!(decaf377::Fr, "CurveConfig::COFACTOR_INV", <Cfg as CurveConfig>::COFACTOR_INV));
+            canon_events.push(canon!(decaf377::Fq, "TECurveConfig::GENERATOR.x", <Cfg as TECurveConfig>::GENERATOR.x));
+            canon_events.push(canon!(decaf377::Fq, "TECurveConfig::GENERATOR.y", <Cfg as TECurveConfig>::GENERATOR.y));
             gen(out, "Group::generator", <Element as Group>::generator().verif_raw());
             let ga = <<Element as CurveGroup>::Affine as AffineRepr>::generator().verif_raw();
             gen(out, "AffineRepr::generator", [ga[0], ga[1], decaf377::Fq::ONE, ga[0] * ga[1]]);
@@ -165,6 +201,10 @@ pub fn record(suite: &str, _n: usize, _seed: u64, _arg: &str, out: &mut dyn Writ
                 }
             }
         }
+    }
+    emit(out, json!({"k":"reset","build":BUILD}));
+    for e in canon_events {
+        emit(out, e);
     }
     true
 }
